@@ -7,18 +7,20 @@ import (
 	"mltwist/internal/consoleui/internal/cmdtools"
 	"mltwist/pkg/model"
 	"strconv"
+	"strings"
 	"unsafe"
 )
 
 func parseAddr(s string) (interface{}, error) {
 	base := 10
-	if len(s) > 2 && s[:2] == "0x" || s[:2] == "0X" {
+	if strings.HasPrefix(s, "0x") || strings.HasPrefix(s, "0X") {
 		base = 16
 		s = s[2:]
-	} else if len(s) == 2 && s[:2] == "0b" || s[:2] == "0B" {
+	} else if strings.HasPrefix(s, "0b") || strings.HasPrefix(s, "0B") {
 		base = 2
 		s = s[2:]
-	} else if len(s) > 0 && s[0] == '0' {
+	} else if len(s) > 1 && s[0] == '0' {
+		// Single zero character is decimal zero, not an octal prefix.
 		base = 8
 		s = s[1:]
 	}
